@@ -287,6 +287,22 @@ def evolve(rec, rng, ctx, allow_removal=True, allow_container=False):
     return None
 
 
+def zipped_ty():
+    # a client codec that stores its bytes as a compressed frame (write_compressed through the context)
+    return Ty("crate::catalog::Zipped", lambda r: r.choice(["crate::catalog::Zipped(Vec::new())", "crate::catalog::Zipped(vec![7u8; 40])",
+                                                           "crate::catalog::Zipped(vec![1u8, 2, 3])"]))
+
+
+def add_field(rec, rng, ty):
+    name = rec.fresh_name(rng)
+    default = ty.default(rng)
+    f = Field(name, ty, chunk=len(rec.steps) + 1, default=default)
+    rec.fields.insert(rng.randint(0, len(rec.fields)), f)
+    rec.used.add(name)
+    rec.steps.append(("FieldAdded", name))
+    return f"add {name}: {ty.rust}"
+
+
 def initial_record(rng, ctx, positional=False, nfields=None):
     rec = Record(positional)
     n = nfields if nfields is not None else rng.randint(1, 4)
@@ -339,16 +355,24 @@ def gen_struct(name, rng, ctx, flavour):
         rec.used.add(nm)
     else:
         rec = initial_record(rng, ctx)
+    if flavour == "zipped":
+        nm = rec.fresh_name(rng)
+        rec.fields.insert(rng.randint(0, len(rec.fields)), Field(nm, zipped_ty()))
+        rec.used.add(nm)
     toplevel_only = flavour == "toplevel"
     # prehistory: families that may remove fields and are embedded start with at least one step, so
     # that every stored record carries sizes (DESIGN 9.1)
-    pre = rng.randint(1, 3) if flavour in ("general", "nested") else (rng.randint(0, 1) if flavour == "containers" else 0)
+    pre = rng.randint(1, 3) if flavour in ("general", "nested", "zipped") else (rng.randint(0, 1) if flavour == "containers" else 0)
     for _ in range(pre):
         d = evolve(rec, rng, ctx, allow_removal=False)
         fam.log.append(f"pre: {d}")
     for k in range(RELEASES):
         if k > 0:
-            if rng.random() < (0.85 if flavour != "containers" else 0.9):
+            if flavour == "zipped" and k in (2, 4):
+                # a compressed frame inside an added chunk (written into the chunk buffer of the context)
+                t = zipped_ty()
+                fam.log.append(f"release {k}: {add_field(rec, rng, t if k == 2 else t.opt())}")
+            elif rng.random() < (0.85 if flavour != "containers" else 0.9):
                 d = evolve(rec, rng, ctx, allow_removal=(pre >= 1 or toplevel_only), allow_container=(flavour == "containers"))
                 if flavour == "containers" and rng.random() < 0.5:
                     d2 = evolve(rec, rng, ctx, allow_removal=False, allow_container=True)
@@ -516,10 +540,18 @@ def rec_removed_default(rec, name):
     return "()"
 
 
-def emit_fields(rec, k, positional, public):
+def emit_fields(rec, k, positional, public, fragments=None, salt=""):
+    """`fragments`: a list that receives the field types, which are then spelled `$t<i>` (the
+    declaration is emitted through a macro_rules whose `ty` fragments reach the derive macro inside
+    invisible groups); optional field types are sometimes parenthesised (both are legal spellings)"""
     out = []
     for f in rec.fields:
         t = rust_of(f.ty, k)
+        if getattr(f.ty, "optional", False) and sum(map(ord, salt + f.name)) % 5 == 0:
+            t = f"({t})"
+        if fragments is not None:
+            fragments.append(t)
+            t = f"$t{len(fragments) - 1}"
         tr = f"#[transient({f.transient})] " if f.transient is not None else ""
         if positional:
             out.append(f"{tr}{t}")
@@ -547,11 +579,19 @@ def emit_family(fam, out):
         tname = f"{fam.name}_V{k}"
         if fam.kind == "struct":
             rec = ver
-            out.append("#[derive(BinaryCodec)]")
             a = attr_steps(rec)
-            if a:
-                out.append(a)
-            out.append(f"pub struct {tname} {{ {emit_fields(rec, k, False, True)} }}")
+            if sum(map(ord, fam.name)) % 3 == 0:
+                # declared through a macro_rules: field types arrive as `ty` fragments
+                frags = []
+                body = emit_fields(rec, k, False, True, fragments=frags, salt=tname)
+                params = ", ".join(f"$t{i}:ty" for i in range(len(frags)))
+                out.append(f"macro_rules! decl_{tname} {{ ({params}) => {{ #[derive(BinaryCodec)] {a} pub struct {tname} {{ {body} }} }}; }}")
+                out.append(f"decl_{tname}!({', '.join(frags)});")
+            else:
+                out.append("#[derive(BinaryCodec)]")
+                if a:
+                    out.append(a)
+                out.append(f"pub struct {tname} {{ {emit_fields(rec, k, False, True, salt=tname)} }}")
             regs = "".join(f"<{rust_of(f.ty, k)} as Bridge>::register(reg); " for f in rec.fields)
             to_val = ", ".join(f"self.{f.name}.to_val()" for f in rec.fields)
             from_val = ", ".join(f"{f.name}: Bridge::from_val(&f[{i}])" for i, f in enumerate(rec.fields))
@@ -596,13 +636,13 @@ def emit_family(fam, out):
                     cons = pat
                     vals = ""
                 elif c["shape"] == "tuple":
-                    variants.append(f"{attrs}{c['name']}({emit_fields(rec, k, True, False)})")
+                    variants.append(f"{attrs}{c['name']}({emit_fields(rec, k, True, False, salt=tname + c['name'])})")
                     binds = ", ".join(f.name for f in rec.fields)
                     pat = f"{tname}::{c['name']}({binds})"
                     cons = f"{tname}::{c['name']}(" + ", ".join(f"Bridge::from_val(&f[{j}])" for j in range(len(rec.fields))) + ")"
                     vals = ", ".join(f"{f.name}.to_val()" for f in rec.fields)
                 else:
-                    variants.append(f"{attrs}{c['name']} {{ {emit_fields(rec, k, False, False)} }}")
+                    variants.append(f"{attrs}{c['name']} {{ {emit_fields(rec, k, False, False, salt=tname + c['name'])} }}")
                     binds = ", ".join(f.name for f in rec.fields)
                     pat = f"{tname}::{c['name']} {{ {binds} }}"
                     cons = f"{tname}::{c['name']} {{ " + ", ".join(f"{f.name}: Bridge::from_val(&f[{j}])" for j, f in enumerate(rec.fields)) + " }"
@@ -632,7 +672,7 @@ def main():
     fams = []
     ctx = dict(nestable=[], nested_used=set(), next_elem=[0])
     plan = (["general"] * 10 + ["enum"] * 5 + ["nested"] * 8 + ["containers"] * 8 + ["enum"] * 5 + ["nested"] * 4
-            + ["toplevel"] * 4 + ["shared"] * 3)
+            + ["toplevel"] * 4 + ["shared"] * 3 + ["zipped"] * 2)
     exclude = set()
     for a in sys.argv[3:]:
         if a.startswith("--exclude="):
@@ -640,11 +680,11 @@ def main():
     counters = {}
     for flavour in plan:
         counters[flavour] = counters.get(flavour, 0) + 1
-        prefix = {"general": "Gs", "enum": "En", "nested": "Ns", "containers": "Cs", "toplevel": "Ts", "shared": "Sh"}[flavour]
+        prefix = {"general": "Gs", "enum": "En", "nested": "Ns", "containers": "Cs", "toplevel": "Ts", "shared": "Sh", "zipped": "Zp"}[flavour]
         name = f"{prefix}{counters[flavour]}"
         sub = random.Random(rng.getrandbits(64))
         c = dict(ctx)
-        if flavour in ("general", "containers", "toplevel"):
+        if flavour in ("general", "containers", "toplevel", "zipped"):
             c = dict(nestable=[], nested_used=ctx["nested_used"], next_elem=ctx["next_elem"])
         if flavour == "shared":
             fam = gen_enum_shared(name, sub, c)
@@ -673,7 +713,7 @@ def main():
         fams = [f for f in fams if f.name not in exclude]
         print("excluded: " + ",".join(sorted(exclude)))
     out = ["// @generated by gen/families.py seed %d — do not edit" % seed,
-           "#![allow(non_camel_case_types, unused_variables, clippy::all)]",
+           "#![allow(non_camel_case_types, unused_variables, unused_parens, unused_macros, clippy::all)]",
            "use crate::bridge::{Bridge, SliceOf, Streamed};", "use crate::catalog::{entry, Entry};",
            "use bytes::Bytes;", "use desert_macro::BinaryCodec;", "use model::evo::Families;",
            "use model::ty::*;", "use std::collections::{BTreeMap, BTreeSet, HashMap, HashSet, LinkedList};", ""]
